@@ -369,6 +369,16 @@ done:
 	return x
 }
 `},
+	// packages that do not type-check: load errors in three files with one
+	// error each (their order in the message must not depend on anything), and
+	// an importer of a package that does not compile (what it reports must not
+	// depend on whether the dependency is translated in the same invocation)
+	"tyerr": {
+		"a.go": "package tyerr\n\nfunc FA() uint64 {\n\treturn undefinedA\n}\n",
+		"b.go": "package tyerr\n\nfunc FB() uint64 {\n\treturn undefinedB\n}\n",
+		"c.go": "package tyerr\n\nfunc FC() uint64 {\n\treturn undefinedC\n}\n"},
+	"depbad": {"dep.go": "package depbad\n\nfunc Get() uint64 {\n\tvar x uint64 = \"no\"\n\treturn x\n}\n"},
+	"usesdep": {"user.go": "package usesdep\n\nimport \"vscratch/synth/depbad\"\n\nfunc UseDep() uint64 {\n\treturn depbad.Get() + 1\n}\n"},
 	// a struct used by its defining package and by an importing package that
 	// are translated together (they share the type checker's objects)
 	"item": {"item.go": `package item
@@ -708,7 +718,8 @@ func (c06) Gen(rng *simrt.Rand, tier string, run int) interface{} {
 		// related packages translated together (shared types, shared imports)
 		group := [][]string{{"./synth/item", "./synth/cart"}, {"./synth/cart", "./synth/item"}, {"./synth/ffiapp1", "./synth/ffiapp2"},
 			{"./synth/ffistore", "./synth/ffiapp2", "./synth/ffiapp1"}, {"./synth/multi", "./synth/fwd", "./synth/errs2"},
-			{"./synth/errsA", "./synth/errsB"}, {"./synth/errsB", "./synth/errs2", "./synth/errsA"}}[rng.Intn(7)]
+			{"./synth/errsA", "./synth/errsB"}, {"./synth/errsB", "./synth/errs2", "./synth/errsA"},
+			{"./synth/usesdep", "./synth/depbad"}, {"./synth/usesdep", "./synth/tyerr"}, {"./synth/tyerr"}}[rng.Intn(10)]
 		p.Patterns = append(append([]string{}, group...), p.Patterns[:rng.Intn(len(p.Patterns)+1)]...)
 		seen := map[string]bool{}
 		var uniq []string
@@ -907,7 +918,9 @@ func (c06) Exec(pj json.RawMessage, tape *simrt.Tape, keepLog bool) harness.RunO
 			fail("tr.slot", fmt.Sprintf("no golden result for loaded package %s", loaded[i]))
 			return out
 		}
-		if r.pkgPath != loaded[i] && !(r.pkgPath == "" && g.pkgPath == "") {
+		// (a package that failed to LOAD comes back as an empty coq.File without
+		// a path: its slot is identified by its error text alone, compared below)
+		if r.pkgPath != loaded[i] && !(r.pkgPath == "" && (g.pkgPath == "" || r.err != "")) {
 			fail("tr.slot", fmt.Sprintf("result slot %d holds package %q, the loader's package %d is %q (co-translated: %v)", i, r.pkgPath, i, loaded[i], loaded))
 			return out
 		}
